@@ -50,3 +50,4 @@ CFG = {'level': 'exploration',
                  'archive/zip reads back what it wrote; the file system under TMPDIR stores arbitrary byte names except NUL and "/"',
                  'ref/refhash transcribes the doc comment of dirhash.Hash1 correctly']}
 CFG['level_text'] += ' An eighth of the module zips are extracted over leftovers of an earlier attempt (a file below subdirectories): a refusal is retried on a clean target, a success is judged like any extraction.'
+CFG['level_text'] += ' Half of the directory trees get a file added below a subdirectory after the first look and are hashed again with the same directory argument.'
